@@ -1,2 +1,4 @@
 import PqlModel.Props.C09
 #print axioms Pql.C09.C09_partition
+#print axioms Pql.C09.C09_rescan
+#print axioms Pql.C09.C09_rescan_any
